@@ -3,7 +3,7 @@
 (* Semantics of the JSON Schema (draft-07) subset that schemars 0.8 emits: *)
 (* type (string or array), properties, required, additionalProperties:     *)
 (* false, items, $ref to #/definitions/*, allOf / anyOf / oneOf, enum,     *)
-(* minimum 0; annotations ($schema, title, description, format, default)   *)
+(* minimum / maximum (non-negative integer bounds); annotations ($schema, title, description, format, default)   *)
 (* are ignored.  An unknown keyword trips an Assert (tool error, never a   *)
 (* verdict).                                                               *)
 (* Documents use the JV form of JsonForm (strings as bytes); in the schema *)
@@ -15,12 +15,17 @@ SHas(j, key) == \E i \in 1..Len(j.k) : j.k[i] = key
 SGet(j, key) == j.v[CHOOSE i \in 1..Len(j.k) : j.k[i] = key]
 SKeys(j) == {j.k[i] : i \in 1..Len(j.k)}
 Known == {"$schema", "title", "description", "type", "required", "properties", "items", "definitions", "$ref",
-          "allOf", "anyOf", "oneOf", "enum", "format", "minimum", "additionalProperties", "default"}
+          "allOf", "anyOf", "oneOf", "enum", "format", "minimum", "maximum", "additionalProperties", "default"}
 TypeNames(d) == CASE d.t = "o" -> {"object"} [] d.t = "a" -> {"array"} [] d.t = "s" -> {"string"}
                   [] d.t = "b" -> {"boolean"} [] d.t = "z" -> {"null"}
                   [] d.t = "n" -> IF d.int THEN {"integer", "number"} ELSE {"number"}
 DefOf(root, ref) == LET defs == SGet(root, "definitions") IN
                     defs.v[CHOOSE i \in 1..Len(defs.k) : "#/definitions/" \o defs.k[i] = ref]
+\* numbers are [neg, hi, lo] with value (hi * 65536 + lo): compared without leaving 32-bit arithmetic
+IsZero(x) == x.hi = 0 /\ x.lo = 0
+GEq(x, y) ==     \* x >= y
+  IF x.neg /\ ~IsZero(x) THEN (y.neg /\ ~IsZero(y)) /\ (y.hi > x.hi \/ (y.hi = x.hi /\ y.lo >= x.lo))
+  ELSE (y.neg \/ IsZero(y)) \/ (x.hi > y.hi \/ (x.hi = y.hi /\ x.lo >= y.lo))
 RECURSIVE Validates(_, _, _)
 Validates(root, s, d) ==
   /\ Assert(SKeys(s) \subseteq Known, <<"unknown schema keyword", SKeys(s) \ Known>>)
@@ -29,8 +34,10 @@ Validates(root, s, d) ==
         LET ty == SGet(s, "type") IN
         IF ty.t = "s" THEN ty.v \in TypeNames(d) ELSE \E i \in 1..Len(ty.v) : ty.v[i].v \in TypeNames(d)
   /\ SHas(s, "enum") => \E i \in 1..Len(SGet(s, "enum").v) : SGet(s, "enum").v[i] = d
-  /\ SHas(s, "minimum") => Assert(SGet(s, "minimum").hi = 0 /\ SGet(s, "minimum").lo = 0, "minimum other than 0")
-  /\ SHas(s, "minimum") => (d.t = "n" => (~d.neg \/ (d.hi = 0 /\ d.lo = 0)))
+  /\ SHas(s, "minimum") => Assert(SGet(s, "minimum").int /\ ~SGet(s, "minimum").neg, "minimum not a non-negative integer")
+  /\ SHas(s, "minimum") => (d.t = "n" => Assert(d.int, "bound on a non-integer document number") /\ GEq(d, SGet(s, "minimum")))
+  /\ SHas(s, "maximum") => Assert(SGet(s, "maximum").int /\ ~SGet(s, "maximum").neg, "maximum not a non-negative integer")
+  /\ SHas(s, "maximum") => (d.t = "n" => Assert(d.int, "bound on a non-integer document number") /\ GEq(SGet(s, "maximum"), d))
   /\ SHas(s, "allOf") => \A i \in 1..Len(SGet(s, "allOf").v) : Validates(root, SGet(s, "allOf").v[i], d)
   /\ SHas(s, "anyOf") => \E i \in 1..Len(SGet(s, "anyOf").v) : Validates(root, SGet(s, "anyOf").v[i], d)
   /\ SHas(s, "oneOf") => Cardinality({i \in 1..Len(SGet(s, "oneOf").v) : Validates(root, SGet(s, "oneOf").v[i], d)}) = 1
